@@ -14,7 +14,7 @@ import (
 func init() {
 	reg(&core.RuleInfo{Name: "SESS-STATE", Props: []string{"C18"}, Engine: "CG", Floor: 10, Confirmed: 14,
 		Doc: "bases that write their own state are created per session; shared bases are write-free", Run: runSessState})
-	reg(&core.RuleInfo{Name: "QUOTA-GUARD", Props: []string{"C18"}, Engine: "INT", Floor: 3, Confirmed: 4,
+	reg(&core.RuleInfo{Name: "QUOTA-GUARD", Props: []string{"C17", "C18"}, Engine: "INT", Floor: 3, Confirmed: 4,
 		Doc: "quota: insert, reject on len > N removing the same id, CLOSE frees the slot", Run: runQuotaGuard})
 	reg(&core.RuleInfo{Name: "UNIQ-PATH", Props: []string{"C18"}, Engine: "CFG", Floor: 2, Confirmed: 2,
 		Doc: "unique filters: Get found ⇒ reject/drop; otherwise Add the same id before forwarding", Run: runUniqPath})
